@@ -34,7 +34,7 @@ def run_property(prop, tier, seed):
     validated = 0
     # ------------------------------------------------------------- E2
     if e2:
-        mods = sorted({j["module"] for j in e2})
+        mods = sorted({j["module"] for j in e2} | {m for j in e2 for m in j.get("extra_modules", [])})
         hooks += M.inject(repo, mods, known_ids)
         mirpath, mir_s = M.dump_mir(scratch)
         with cf.ThreadPoolExecutor(max_workers=2) as ex:
@@ -217,7 +217,7 @@ def replay(prop, path):
     h = e["harness"]
     job = [j for j in spec["jobs"] if j["harness"] == h][0]
     if job["engine"] == "E2":
-        M.inject(repo, [job["module"]], known_ids)
+        M.inject(repo, sorted({job["module"]} | set(job.get("extra_modules", []))), known_ids)
         ok = True
         for rel in (False, True):
             exe = M.build_native(scratch, rel)
